@@ -2101,8 +2101,9 @@ impl CommandParser {
         if frames.len() != 3 {
             return Err(FerrousError::Command(CommandError::WrongNumberOfArguments("INCRBY".into())));
         }
-        let increment = Self::extract_string(&frames[2])?.parse::<i64>()
-            .map_err(|_| FerrousError::Command(CommandError::InvalidIntegerValue))?;
+        // as the direct command: the canonical decimal form only
+        let increment = crate::storage::value::parse_canonical_i64(Self::extract_string(&frames[2])?.as_bytes())
+            .ok_or(FerrousError::Command(CommandError::InvalidIntegerValue))?;
         Ok(StringCommand::IncrBy {
             key: Self::extract_bytes(&frames[1])?,
             increment,
@@ -2159,8 +2160,9 @@ impl CommandParser {
         if frames.len() != 3 {
             return Err(FerrousError::Command(CommandError::WrongNumberOfArguments("DECRBY".into())));
         }
-        let decrement = Self::extract_string(&frames[2])?.parse::<i64>()
-            .map_err(|_| FerrousError::Command(CommandError::InvalidIntegerValue))?;
+        // as the direct command: the canonical decimal form only
+        let decrement = crate::storage::value::parse_canonical_i64(Self::extract_string(&frames[2])?.as_bytes())
+            .ok_or(FerrousError::Command(CommandError::InvalidIntegerValue))?;
         Ok(StringCommand::DecrBy {
             key: Self::extract_bytes(&frames[1])?,
             decrement,
